@@ -138,4 +138,151 @@ theorem read_take_of_last (a : Archive) (n : String) (b : Blob) (i : Nat) (he : 
       rw [if_neg hne]
       exact ih (by omega) (by omega) (fun j e h1 h2 h3 => hl j e h1 (by omega) h3)
 
+theorem findLatestRev_plain (l : List (String × Blob)) (n : String) :
+    (findLatestRev (l.map (fun e => (e.1, Member.data e.2))) n).map (·.2) =
+      (l.find? (fun e => e.1 == n)).map (fun e => Member.data e.2) := by
+  induction l with
+  | nil => rfl
+  | cons e l ih =>
+    simp only [List.map_cons, findLatestRev, List.find?_cons]
+    cases h : e.1 == n <;> simp [ih]
+
+theorem readL_plain (a : Archive) (n : String) : readL (plain a) n = read a n := by
+  unfold readL findLatest read plain
+  rw [List.take_length, ← List.map_reverse]
+  have h := findLatestRev_plain a.reverse n
+  cases hf : findLatestRev (List.map (fun e => (e.1, Member.data e.2)) a.reverse) n with
+  | none =>
+    rw [hf] at h
+    cases hr : List.find? (fun e => e.1 == n) a.reverse with
+    | none => simp
+    | some e => rw [hr] at h; simp at h
+  | some p =>
+    rw [hf] at h
+    cases hr : List.find? (fun e => e.1 == n) a.reverse with
+    | none => rw [hr] at h; simp at h
+    | some e =>
+      rw [hr] at h
+      simp only [Option.map_some, Option.some.injEq] at h
+      obtain ⟨i, m⟩ := p
+      simp only at h
+      subst h
+      simp [resolve]
+
+
+/-- no symbolic-link member (what `tar` makes of a folder that went through hard-link de-duplication) -/
+def NoSym (a : LArchive) : Prop := ∀ e ∈ a, ∀ t, e.2 ≠ Member.sym t
+
+theorem findLatestRev_bounds : ∀ (l : List (String × Member)) (n : String) (j : Nat) (m : Member),
+    findLatestRev l n = some (j, m) → j < l.length ∧ ∃ nm, (nm, m) ∈ l := by
+  intro l
+  induction l with
+  | nil => intro n j m h; cases h
+  | cons e older ih =>
+    intro n j m h
+    unfold findLatestRev at h
+    split at h
+    · cases h; exact ⟨by simp, e.1, by simp⟩
+    · obtain ⟨h1, nm, h2⟩ := ih n j m h
+      exact ⟨by simp; omega, nm, List.mem_cons_of_mem _ h2⟩
+
+theorem findLatest_bounds {a : LArchive} {i : Nat} {t : String} {j : Nat} {m : Member}
+    (h : findLatest a i t = some (j, m)) : j < i ∧ j < a.length ∧ ∃ nm, (nm, m) ∈ a := by
+  unfold findLatest at h
+  obtain ⟨h1, nm, h2⟩ := findLatestRev_bounds _ _ _ _ h
+  rw [List.length_reverse, List.length_take] at h1
+  refine ⟨by omega, by omega, nm, ?_⟩
+  exact List.mem_of_mem_take (List.mem_reverse.mp h2)
+
+theorem findLatest_append_le (a : LArchive) (x : String × Member) {i : Nat} (hi : i ≤ a.length) (t : String) :
+    findLatest (a ++ [x]) i t = findLatest a i t := by
+  unfold findLatest
+  rw [List.take_append_of_le_length hi]
+
+theorem resolve_append (a : LArchive) (x : String × Member) (hns : NoSym a) : ∀ (f i : Nat) (m : Member), i ≤ a.length →
+    (∀ t, m ≠ Member.sym t) → resolve (a ++ [x]) f (i, m) = resolve a f (i, m) := by
+  intro f
+  induction f with
+  | zero => intro i m _ _; rfl
+  | succ f ih =>
+    intro i m hi hm
+    cases m with
+    | data b => rfl
+    | sym t => exact absurd rfl (hm t)
+    | hard t =>
+      unfold resolve
+      rw [findLatest_append_le a x hi t]
+      cases hf : findLatest a i t with
+      | none => rfl
+      | some p =>
+        obtain ⟨j, m'⟩ := p
+        obtain ⟨h1, _, nm, hmem⟩ := findLatest_bounds hf
+        simp only [Option.bind_some]
+        exact ih j m' (by omega) (hns _ hmem)
+
+theorem resolve_mono (a : LArchive) : ∀ (f : Nat) (p : Nat × Member) (b : Blob), resolve a f p = some b → resolve a (f + 1) p = some b := by
+  intro f
+  induction f with
+  | zero => intro p b h; cases h
+  | succ f ih =>
+    intro p b h
+    obtain ⟨i, m⟩ := p
+    cases m with
+    | data b' => exact h
+    | hard t =>
+      unfold resolve at h ⊢
+      cases hf : findLatest a i t with
+      | none => rw [hf] at h; cases h
+      | some q => rw [hf] at h; simp only [Option.bind_some] at h ⊢; exact ih q b h
+    | sym t =>
+      unfold resolve at h ⊢
+      cases hf : findLatest a a.length t with
+      | none => rw [hf] at h; cases h
+      | some q => rw [hf] at h; simp only [Option.bind_some] at h ⊢; exact ih q b h
+
+theorem findLatest_append_self (a : LArchive) (n : String) (m : Member) :
+    findLatest (a ++ [(n, m)]) (a ++ [(n, m)]).length n = some (a.length, m) := by
+  unfold findLatest
+  rw [List.take_length, List.reverse_append]
+  simp [findLatestRev]
+
+theorem findLatest_append_other (a : LArchive) (n n' : String) (m : Member) (h : (n == n') = false) :
+    findLatest (a ++ [(n, m)]) (a ++ [(n, m)]).length n' = findLatest a a.length n' := by
+  unfold findLatest
+  rw [List.take_length, List.take_length, List.reverse_append]
+  simp [findLatestRev, h]
+
+/-- A SECOND NAME OF AN INODE READS AS THE FIRST: a hard-link member appended to an archive (without symbolic links) reads back,
+  under its own name, exactly what the name it points to reads back -/
+theorem hard_link_reads_its_target (a : LArchive) (hns : NoSym a) (n t : String) :
+    readL (a ++ [(n, Member.hard t)]) n = readL a t := by
+  unfold readL
+  rw [findLatest_append_self]
+  simp only [Option.bind_some, List.length_append, List.length_singleton]
+  unfold resolve
+  rw [findLatest_append_le a _ (Nat.le_refl _) t]
+  cases hf : findLatest a a.length t with
+  | none => rfl
+  | some p =>
+    obtain ⟨j, m'⟩ := p
+    obtain ⟨h1, _, nm, hmem⟩ := findLatest_bounds hf
+    simp only [Option.bind_some]
+    exact resolve_append a _ hns _ j m' (by omega) (hns _ hmem)
+
+/-- ... and changes nothing that was readable under another name -/
+theorem hard_link_leaves_other_names (a : LArchive) (hns : NoSym a) (n t n' : String) (b : Blob) (hne : (n == n') = false)
+    (h : readL a n' = some b) : readL (a ++ [(n, Member.hard t)]) n' = some b := by
+  unfold readL at h ⊢
+  rw [findLatest_append_other a n n' _ hne]
+  cases hf : findLatest a a.length n' with
+  | none => rw [hf] at h; cases h
+  | some p =>
+    obtain ⟨j, m'⟩ := p
+    rw [hf] at h
+    obtain ⟨h1, _, nm, hmem⟩ := findLatest_bounds hf
+    simp only [Option.bind_some, List.length_append, List.length_singleton] at h ⊢
+    rw [resolve_append a _ hns _ j m' (by omega) (hns _ hmem)]
+    exact resolve_mono a _ _ b h
+
+
 end Kapture.C12
